@@ -23,6 +23,9 @@ Shape(sn) ==
     [] sn = "any" -> Op("~", <<Prim("num"), OA>>)
     [] sn = "sum" -> Op("|", <<Prim("num"), Prim("str")>>)
     [] sn = "sumobj" -> Op("|", <<OA, Obj(<<>>)>>)
+    \* sums whose operands are URIs / relations: the sum takes the kind of its operands
+    [] sn = "sumuri" -> Op("|", <<Uri(<<Seg("a")>>), Uri(<<Seg("b")>>)>>)
+    [] sn = "sumrel" -> Op("|", <<Rel(Uri(<<Seg("r")>>), <<Xfer("get", C0)>>), Rel(Uri(<<Seg("s")>>), <<Xfer("get", C0)>>)>>)
     [] sn = "cnt" -> Cnt(<<>>, <<Prim("num")>>) [] sn = "cnt0" -> C0
     [] sn = "cntfull" -> Cnt(<<Meta("status", LitNum("200")), Meta("media", LitStr("a/b"))>>, <<OA>>)
     [] sn = "ranges" -> Op("::", <<Cnt(<<>>, <<Prim("num")>>), Cnt(<<Meta("status", LitNum("404"))>>, <<Prim("str")>>)>>)
@@ -401,7 +404,7 @@ AnnotsLabelled == {[l |-> <<pn, sn, ind, IF ind = "direct" THEN "none" ELSE use>
 
 AllPositions == {"body", "range", "domain", "headers", "media", "status", "reluri", "res", "xferlist", "proprhs", "objitem",
                  "arritem", "join", "any", "sum", "rangeop", "unary", "urivar", "apparg", "recbody", "refdecl", "concat"}
-AllShapes == {"num", "str", "uriprim", "obj", "obj0", "arr", "prop", "propreq", "unopt", "join", "any", "sum", "sumobj", "cnt", "cnt0",
+AllShapes == {"num", "str", "uriprim", "obj", "obj0", "arr", "prop", "propreq", "unopt", "join", "any", "sum", "sumobj", "sumuri", "sumrel", "cnt", "cnt0",
               "cntfull", "ranges", "urit", "urivar", "rel", "xfer", "litnum", "litstr", "litstatus", "rec"}
 AllIndirections == {"direct", "let", "reflet", "idfn", "implet", "impfn"}
 QuickIndirections == {"direct", "let", "idfn", "fnlocal", "fnimp"}
